@@ -9,6 +9,10 @@ an open file object that has not been flushed yet.  A crash may persist ANY PREF
 the pending data of a file (Python's buffered writer flushes whenever it likes), so the
 states visible after a crash at some point are `disk p ++ take k (pend p)`.
 
+Every open file has a write offset (`off`): `open(…, "w")` truncates and starts at 0,
+`os.open(O_WRONLY|O_CREAT)` WITHOUT `O_TRUNC` (`openKeep`) keeps the existing content and
+starts at 0, so that flushed data OVERWRITES the old bytes and a longer old tail survives.
+
 Operations are addressed by the path the file *currently* has (the harness renames the
 path of an open file object when it sees `os.replace`), i.e. `rename` moves the inode
 including its pending data.
@@ -25,6 +29,7 @@ abbrev Path := String
 
 inductive Op
   | openTrunc (p : Path)
+  | openKeep (p : Path)                 -- create if missing, no truncation, offset 0
   | write (p : Path) (bs : Bytes)
   | flush (p : Path)
   | fsync (p : Path)
@@ -36,16 +41,25 @@ inductive Op
 structure FS where
   disk : Path → Option Bytes
   pend : Path → Bytes
+  off : Path → Nat := fun _ => 0
+
+/-- write `bs` into `d` at offset `o` (the file grows when needed) -/
+def overwrite (d : Bytes) (o : Nat) (bs : Bytes) : Bytes :=
+  d.take o ++ bs ++ d.drop (o + bs.length)
 
 def upd {α : Type} (f : Path → α) (p : Path) (v : α) : Path → α :=
   fun q => if q = p then v else f q
 
 /-- move buffered data to the file (nothing happens when the file has been unlinked) -/
 def FS.flush (fs : FS) (p : Path) : FS :=
-  { disk := upd fs.disk p ((fs.disk p).map (· ++ fs.pend p)), pend := upd fs.pend p [] }
+  { disk := upd fs.disk p ((fs.disk p).map (overwrite · (fs.off p) (fs.pend p))),
+    pend := upd fs.pend p [],
+    off := upd fs.off p (fs.off p + (fs.pend p).length) }
 
 def step (fs : FS) : Op → FS
-  | .openTrunc p => { disk := upd fs.disk p (some []), pend := upd fs.pend p [] }
+  | .openTrunc p => { disk := upd fs.disk p (some []), pend := upd fs.pend p [], off := upd fs.off p 0 }
+  | .openKeep p =>
+      { disk := upd fs.disk p (some ((fs.disk p).getD [])), pend := upd fs.pend p [], off := upd fs.off p 0 }
   | .write p bs => { fs with pend := upd fs.pend p (fs.pend p ++ bs) }
   | .flush p => fs.flush p
   | .fsync _ => fs
@@ -55,14 +69,16 @@ def step (fs : FS) : Op → FS
       | none => fs                                   -- ENOENT: nothing happens
       | some c =>
         { disk := upd (upd fs.disk q (some c)) p none,
-          pend := upd (upd fs.pend q (fs.pend p)) p [] }
-  | .unlink p => { disk := upd fs.disk p none, pend := upd fs.pend p [] }
+          pend := upd (upd fs.pend q (fs.pend p)) p [],
+          off := upd (upd fs.off q (fs.off p)) p 0 }
+  | .unlink p => { disk := upd fs.disk p none, pend := upd fs.pend p [], off := upd fs.off p 0 }
 
 def run (fs : FS) (tr : List Op) : FS := tr.foldl step fs
 
 /-- what a crash *now* can leave at path `t`: the file with any prefix of its pending data -/
 def views (fs : FS) (t : Path) : List (Option Bytes) :=
-  (List.range ((fs.pend t).length + 1)).map fun k => (fs.disk t).map (· ++ (fs.pend t).take k)
+  (List.range ((fs.pend t).length + 1)).map fun k =>
+    (fs.disk t).map (overwrite · (fs.off t) ((fs.pend t).take k))
 
 /-- contents of `t` over all crash points of the trace: before the first operation, after
     every operation, inside every write/flush (through `views`). -/
@@ -78,6 +94,7 @@ def crashGroups (fs : FS) : List Op → Path → List (List (Option Bytes))
 /-- does the operation change content, pending data or existence of `t`? -/
 def touches (t : Path) : Op → Bool
   | .openTrunc p => p == t
+  | .openKeep p => p == t
   | .write p _ => p == t
   | .flush p => p == t
   | .fsync _ => false
@@ -105,5 +122,9 @@ def safeSaveB (fs0 : FS) (new : Bytes) (tr : List Op) (t : Path) : Bool :=
 /-- initial file system of a save: only the target (possibly) exists -/
 def initFS (t : Path) (old : Option Bytes) : FS :=
   { disk := fun q => if q = t then old else none, pend := fun _ => [] }
+
+/-- … plus leftovers of an earlier, crashed save (other files in the directory) -/
+def initFSx (t : Path) (old : Option Bytes) (extras : List (Path × Bytes)) : FS :=
+  { disk := fun q => if q = t then old else extras.lookup q, pend := fun _ => [] }
 
 end PyatvModel.C15
